@@ -168,7 +168,7 @@ def r1(R, m):
 
 def r2(R, m):
     R.rule("C15.R2", "find_ND_labels: labels start as arange(npks); the loop is left only when the latest sweep over (i, j, labels) returned 0")
-    fn = m.ifunc("find_ND_labels", keep=("numbalabelNd", "get_clean_labels"))
+    fn = pyfacts.normalise_endless_for(pyfacts.clone(m.ifunc("find_ND_labels", keep=("numbalabelNd", "get_clean_labels"))))
     init = [s for s in fn.body if isinstance(s, ast.Assign) and src(s.targets[0]) == "labels"]
     R.check(len(init) == 1 and "arange(npks" in src(init[0].value), "C15.R2", REL, fn.lineno, "find_ND_labels", "labels = np.arange(npks)", "labels do not start as the identity")
     # path property on the flow graph: every path that reaches the renumbering comes from a sweep  T = numbalabelNd(i, j, labels, ..)
@@ -314,7 +314,7 @@ def _sign_test_numbering(R, fn, L):
 def r3(R, m):
     R.rule("C15.R3", "get_clean_labels: sequential counting loop gives roots (labels[i] == i) the next number and negates the rest; the prange "
                      "loop writes only labels[i] under own value j < 0 and reads only labels[-j]")
-    fn = m.ifunc("get_clean_labels")      # helpers inlined, counting while loops read as for loops over range()
+    fn = pyfacts.normalise_continue_else(pyfacts.clone(m.ifunc("get_clean_labels")))      # helpers inlined, counting while loops read as for loops over range(), 'if c: ..; continue' as if / else
     L = fn.args.args[0].arg                # the label array, whatever it is called
     loops = [l for l in fn.body if isinstance(l, ast.For)]
     _sign_test_numbering(R, fn, L)
